@@ -58,6 +58,23 @@ def big_piece_cases(self, rng, clauses, damages):
     return out
 
 
+def foreign_plen_cases(self, rng, clauses, dmg):
+    """v1 metafiles of other tools may carry ANY positive piece length (BEP 3): not a power of two, below 16 KiB,
+    larger than the payload."""
+    out = []
+    for P in (1000, 4096, 8192, 49152, 3 * B + 1, 2 ** 21):
+        for sh, sizes in (("S1", (5 * B + 3,)), ("D3", (B + 1, 7, 3 * B)), ("D2", (70000, 0))):
+            for src in ("ref", "ref_unsorted"):
+                if sh == "S1" and src != "ref":
+                    continue
+                for d in range(dmg[0], dmg[1] + 1):
+                    c = self.mk(rng, P, 1, src, d, clauses, tree=(sh, sizes), route=("lib", "cli")[(P + d) % 2])
+                    if c["tree"].get("single"):     # (a missing root is not a recheck: see cases())
+                        c["damage"] = [x for x in c["damage"] if x["kind"] not in ("remove", "rmdir", "dangling")]
+                    out.append(c)
+    return out
+
+
 def periodic_cases(self, rng, clauses):
     """Payloads in which every byte equals the byte one piece length earlier (a constant non-zero fill, identical
     64-byte records), cut short after at least one whole piece: whatever a checker still holds from the piece
@@ -368,6 +385,7 @@ class C16(RecheckProp):
                 c["damage"] = [d for d in c["damage"] if d["kind"] not in ("remove", "rmdir", "dangling")]
             out.append(c)
         out += periodic_cases(self, rng, cl) + missing_dir_cases(self, rng, cl) + linked_member_cases(self, rng, cl)
+        out += foreign_plen_cases(self, rng, cl, (0, 2))
         out += big_piece_cases(self, rng, cl, [[], [{"file": 0, "kind": "flip", "arg": 2 ** 20 + 7}],
                                                [{"file": 0, "kind": "trunc", "arg": 2 ** 21}]])
         # payload members reached through symbolic links (inside the root / leading outside it), intact and damaged
@@ -434,7 +452,7 @@ class C04(RecheckProp):
             c["damage"] = [{"file": 0, "kind": "flip", "arg": B}]
             out.append(c)
         out += periodic_cases(self, rng, ["C04.lt100"]) + missing_dir_cases(self, rng, ["C04.lt100"])
-        out += linked_member_cases(self, rng, ["C04.lt100"])
+        out += linked_member_cases(self, rng, ["C04.lt100"]) + foreign_plen_cases(self, rng, ["C04.lt100"], (1, 2))
         out += big_piece_cases(self, rng, ["C04.lt100"], [[{"file": 0, "kind": "flip", "arg": 2 ** 20 + 7}],
                                                           [{"file": 0, "kind": "trunc", "arg": 2 ** 21}]])
         lim = 20000 if tier == "thorough" else 1000
@@ -528,6 +546,10 @@ class C05(RecheckProp):
                 c = dict(base)
                 c["path_mode"] = mode
                 out.append(c)
+        for c in foreign_plen_cases(self, rng, ["C05.hundred", "C05.rootparent"], (0, 0)):
+            g += 1
+            for mode in ("root", "parent"):
+                out.append(dict(c, path_mode=mode, group="g%d" % g))
         out += self.findroot_cases()
         lim = 20000 if tier == "thorough" else 1000
         sc = scaled_universe("MC_FeedChecker_quick.cfg", 1, ["C05.hundred"], rng, lim) + \
